@@ -171,6 +171,34 @@ def rebuild(node, bmap=None, idmap=None, dvalue=None):
     return go(node, True)
 
 
+def special_models():
+    """deterministic shapes that random generation rarely hits: one definition appearing under several classes (Any next
+    to the at-least-one half of an Xor over the same items), a named sub-proposition shared between two parents, unnamed
+    look-alikes whose generated ids could collide.  Each is used only if the tree under check validates it."""
+    import puan
+    import puan.logic.plog as pg
+    x = puan.variable("x", (0, 3))
+    t = puan.variable("t", (-2, 2))
+    mk = [
+        lambda: pg.All(pg.Any("a", "b"), pg.Xor("a", "b"), "c", variable="T"),
+        lambda: pg.All(pg.Any("a", "b", variable="B"), pg.Imply("c", pg.Any("a", "b", variable="B")), variable="T"),
+        lambda: pg.Imply(pg.Any(x, "b"), pg.All(pg.Xor(x, "b"), pg.Any("c", t)), variable="T"),
+        lambda: pg.Any(pg.All("a", "b"), pg.AtLeast(2, ["a", "b"]), "c", variable="T"),
+        lambda: pg.All(pg.AtMost(1, ["a", "b", "c"]), pg.Any("d", pg.Not(pg.AtLeast(2, ["a", "b", "c"]))), variable="T"),
+        lambda: pg.All(pg.All(pg.Any("ab", "c"), "p", variable="P"), pg.All(pg.Any("a", "bc"), "q", variable="Q"), variable="T"),
+        lambda: pg.All(pg.Any(pg.AtLeast(1, ["x1"]), "p", variable="P"), pg.Any(pg.AtLeast(11, [puan.variable("x", (0, 20))]), "q", variable="Q"), variable="T"),
+        lambda: pg.Xor(pg.Any("a", "b"), pg.AtLeast(1, ["a", "b"], variable="N"), variable="T"),
+        lambda: pg.All(pg.XNor("a", "b"), pg.Xor("a", "b", variable="X"), pg.Any("a", "b"), variable="T"),
+    ]
+    out = []
+    for f in mk:
+        try:
+            out.append(f())
+        except Exception:
+            pass
+    return out
+
+
 VARIANTS = [
     ("plain", {}, None),
     ("colliding-bounds-1", {(1, 2): (0, 3), (-1, 0): (-2, 0), (0, 1): (0, 1), (-2, 0): (-1, 0)}, None),
